@@ -132,6 +132,18 @@ pub struct Aligned {
     len: usize,
 }
 
+impl core::ops::Deref for Aligned {
+    type Target = [u8];
+    fn deref(&self) -> &[u8] {
+        self.get()
+    }
+}
+impl core::ops::DerefMut for Aligned {
+    fn deref_mut(&mut self) -> &mut [u8] {
+        self.get_mut()
+    }
+}
+
 impl Aligned {
     pub fn new(seed: u64, len: usize, off: usize) -> Self {
         let mut buf = vec![0xA5u8; len + off + 32];
